@@ -216,11 +216,12 @@ extern int mpt_graph_set(MPT_STRUCT(graph) *gr, const char *name, MPT_INTERFACE(
 			if (i >= 4) {
 				break;
 			}
+			/* two bits per axis, first axis in the lowest bits */
 			switch (v[i++]) {
 			  case 0: len = i - 1; break;
-			  case 'B': case 'b': n |= MPT_ENUM(AlignBegin) << i*2; break;
-			  case 'E': case 'e': n |= MPT_ENUM(AlignEnd)   << i*2; break;
-			  case 'Z': case 'z': n |= MPT_ENUM(AlignZero)  << i*2; break;
+			  case 'B': case 'b': n |= MPT_ENUM(AlignBegin) << (i-1)*2; break;
+			  case 'E': case 'e': n |= MPT_ENUM(AlignEnd)   << (i-1)*2; break;
+			  case 'Z': case 'z': n |= MPT_ENUM(AlignZero)  << (i-1)*2; break;
 			  default:;
 			}
 		}
